@@ -250,6 +250,8 @@ def check(rep, F, tier, replay=None):
     boot_attr_rule(rep, F)
     from ruleutil import datum_eq_rule
     datum_eq_rule(rep, F)  # the estimate and the emitted witness set agree on which datums exist
+    from ruleutil import signer_amount_rule
+    signer_amount_rule(rep, F)
     return rep.finish(
         EXPLANATION,
         ["fees::min_fee / min_script_fee / min_ref_script_fee compute the ledger formulas (C15)", "fake witnesses have the byte size of real ones (fakes.rs constants)", "the signer union being complete per source is C18's matrix"],
